@@ -1,5 +1,5 @@
 \* exhaustive (thorough): every mesh pair over H = 6, every profile, map back with and without two solver states
-CONSTANTS H = 6  Profiles = {1, 2, 3, 4, 11, 12, 13, 14, 15, 16}  FuelChoices = {3}  SolveProfiles = {2, 3}
+CONSTANTS H = 6  SrcPts = {1, 2, 3, 4, 5}  DstPts = {1, 2, 3, 4, 5}  Profiles = {1, 2, 3, 4, 11, 12, 13, 14, 15, 16}  FuelChoices = {3}  SolveProfiles = {2, 3}
           Jitters = {"none"}  Ops = {"MakeUniform", "Solve", "MapBack"}  SnapFlags = {}
           SnapProfiles = {}  MaxLevel = 5
 INIT Init
